@@ -6,6 +6,9 @@ use discret::verif_hooks::configuration::Configuration;
 use discret::verif_hooks::database::edge::{Edge, EdgeDeletionEntry};
 use discret::verif_hooks::database::graph_database::GraphDatabaseService;
 use discret::verif_hooks::database::node::{Node, NodeDeletionEntry, NodeIdentifier, NodeToInsert};
+use discret::verif_hooks::database::authorisation_service::AuthorisationMessage;
+use discret::verif_hooks::database::room::{RightType, Room};
+use discret::verif_hooks::security::SigningKey;
 use discret::verif_hooks::database::room_node::{
     AuthorisationNode, EntityRightNode, RoomNode, UserNode,
 };
@@ -21,9 +24,12 @@ use std::path::PathBuf;
 pub struct RowDef {
     pub id: u64,
     pub ent: u64,
-    pub t: i64,
+    pub c: i64,
+    pub t: i64, // mdate
     pub by: u64,
     pub json: Option<String>,
+    pub tag: u64,
+    pub sig: bool,
 }
 #[derive(Clone)]
 pub struct EdgeDef {
@@ -33,6 +39,7 @@ pub struct EdgeDef {
     pub dst: u64,
     pub t: i64,
     pub by: u64,
+    pub sig: bool,
 }
 #[derive(Clone, Default)]
 pub struct AuthDef {
@@ -60,11 +67,11 @@ fn sys_node(keys: &Keys, r: &RowDef) -> Option<Node> {
             id: r.id,
             room: None,
             ent: r.ent,
-            cdate: r.t,
+            cdate: r.c,
             mdate: r.t,
             key: r.by,
             json: r.json.clone(),
-            sig: true,
+            sig: r.sig,
         },
     )
 }
@@ -78,7 +85,7 @@ fn sys_edge(keys: &Keys, e: &EdgeDef) -> Option<Edge> {
             dst: e.dst,
             cdate: e.t,
             key: e.by,
-            sig: true,
+            sig: e.sig,
         },
     )
 }
@@ -186,7 +193,8 @@ struct Case {
     app: GraphDatabaseService,
     dir: PathBuf,
     defs: BTreeMap<u64, RoomDef>,
-    installed: HashSet<u64>,
+    row_pool: HashMap<u64, RowDef>,
+    edge_pool: HashMap<u64, EdgeDef>,
     sys_ids: HashSet<u64>,
     pending: Pending,
     json_tags: HashMap<String, u64>,
@@ -219,6 +227,7 @@ fn class_of(e: &discret::Error) -> &'static str {
     let s = e.to_string();
     match e {
         discret::Error::Security(_) => "signature",
+        discret::Error::OneshotRecv(_) => "panic",
         discret::Error::JSON(_) => "signature",
         discret::Error::Database(d) => {
             use discret::verif_hooks::database::Error as D;
@@ -250,6 +259,7 @@ fn class_of(e: &discret::Error) -> &'static str {
                     }
                 }
                 D::DatabaseWrite(_) | D::Database(_) => "dberror",
+                D::OneshotAsyncRecv(_) | D::ChannelSend(_) => "panic",
                 _ => {
                     let _ = s;
                     "other"
@@ -284,7 +294,8 @@ impl Case {
             app,
             dir,
             defs: BTreeMap::new(),
-            installed: HashSet::new(),
+            row_pool: HashMap::new(),
+            edge_pool: HashMap::new(),
             sys_ids: HashSet::new(),
             pending: Pending::default(),
             json_tags: HashMap::new(),
@@ -430,7 +441,7 @@ impl Case {
 
     fn tag_row(&mut self, r: &RowDef) {
         if let Some(j) = &r.json {
-            self.json_tags.insert(j.clone(), 0);
+            self.json_tags.insert(j.clone(), r.tag);
         }
     }
 
@@ -440,11 +451,6 @@ impl Case {
             return "bad-op".into();
         };
         let ids = d.row_ids();
-        let t = self.tables(keys).await;
-        let present: HashSet<i64> = t.nodes.iter().map(|r| r[0]).collect();
-        if self.installed.contains(&room) || ids.iter().any(|i| present.contains(&(*i as i64))) {
-            return "bad-op".into();
-        }
         let Some(rn) = room_node(keys, &d) else {
             return "bad-op".into();
         };
@@ -462,15 +468,65 @@ impl Case {
         };
         match self.app.add_room_node(rn).await {
             Ok(()) => {
-                self.installed.insert(room);
                 for i in ids {
                     self.sys_ids.insert(i);
                 }
                 self.defs.remove(&room);
                 "ok".into()
             }
-            Err(e) => format!("err:{}", class_of(&discret::Error::from(e))),
+            Err(e) => {
+                let e = discret::Error::from(e);
+                if class_of(&e) == "panic" {
+                    "panic".into()
+                } else {
+                    format!("err:{}", class_of(&e))
+                }
+            }
         }
+    }
+
+    fn matrix(room: &Room, keys: &Keys, dates: &[i64]) -> String {
+        let mut v = vec![];
+        let b = |x: bool| if x { '1' } else { '0' };
+        for d in dates {
+            for k in 0..6u64 {
+                let vk = keys.get(k).unwrap().export_verifying_key();
+                let mut s = format!("{}:{}:", d, k);
+                s.push(b(room.is_admin(&vk, *d)));
+                s.push(b(room.is_user_valid_at(&vk, *d)));
+                s.push(b(room.authorisations.values().any(|a| a.can_admin_users(&vk, *d))));
+                for e in ["A", "B", "C"] {
+                    s.push(b(room.can(&vk, e, *d, &RightType::MutateSelf)));
+                    s.push(b(room.can(&vk, e, *d, &RightType::MutateAll)));
+                }
+                v.push(s);
+            }
+        }
+        v.join(",")
+    }
+
+    /// decisions of the loaded room and of the room as read back from the tables
+    async fn probe(&self, keys: &Keys, room: u64, dates: &[i64]) -> String {
+        let (reply, rx) = tokio::sync::oneshot::channel();
+        let _ = self
+            .app
+            .auth
+            .send(AuthorisationMessage::VerifGetRoom(mk::uid(room), reply))
+            .await;
+        let live = match rx.await {
+            Ok(Some(r)) => Self::matrix(&r, keys, dates),
+            Ok(None) => "none".to_string(),
+            Err(_) => "panic".to_string(),
+        };
+        let stored = match self.app.get_room_node(mk::uid(room)).await {
+            Ok(Some(rn)) => match rn.parse() {
+                Ok(r) => Self::matrix(&r, keys, dates),
+                Err(_) => "err".to_string(),
+            },
+            Ok(None) => "none".to_string(),
+            Err(_) => "dberr".to_string(),
+        };
+        format!("probe live={} stored={}", live, stored)
     }
 
     /// the body of `synchronise_day` with the remote peer's answers taken from the pending records
@@ -596,6 +652,13 @@ fn get_u(kv: &HashMap<String, String>, k: &str) -> Option<u64> {
 fn get_i(kv: &HashMap<String, String>, k: &str) -> Option<i64> {
     kv.get(k).and_then(|v| v.parse::<i64>().ok())
 }
+fn list_u(kv: &HashMap<String, String>, k: &str) -> Option<Vec<u64>> {
+    match kv.get(k) {
+        None => Some(vec![]),
+        Some(s) if s.is_empty() => Some(vec![]),
+        Some(s) => s.split(',').map(|x| x.parse::<u64>().ok()).collect(),
+    }
+}
 fn get_b(kv: &HashMap<String, String>, k: &str) -> Option<bool> {
     match kv.get(k).map(|s| s.as_str()) {
         Some("0") => Some(false),
@@ -639,42 +702,23 @@ pub fn node_of_op(keys: &Keys, kv: &HashMap<String, String>) -> Option<(Node, i6
     Some((n, ad, asg, rank, tag, json.unwrap_or_default()))
 }
 
-pub async fn run(ops: &str, out: &str, stats_path: Option<&str>, _mode: &str) {
-    let f = std::fs::File::open(ops).expect("ops file");
-    let mut w = BufWriter::new(std::fs::File::create(out).expect("out file"));
-    let work: PathBuf = PathBuf::from(format!("{}.db", out));
-    let _ = std::fs::remove_dir_all(&work);
-    std::fs::create_dir_all(&work).unwrap();
-    let keys = Keys::new();
-    let sigsvc = SignatureVerificationService::start(1);
-    let mut stats = Stats::default();
-    let mut case: Option<Case> = None;
-    let mut ncase = 0u64;
-    for line in std::io::BufReader::new(f).lines() {
-        let line = line.unwrap();
-        let (kind, kv) = parse_kv(&line);
-        let res: String = match kind.as_str() {
-            "case" => match get_u(&kv, "id") {
-                Some(id) => {
-                    if let Some(c) = case.take() {
-                        let dir = c.dir.clone();
-                        drop(c);
-                        let _ = std::fs::remove_dir_all(dir);
-                    }
-                    ncase += 1;
-                    case = Some(Case::new(&work, ncase).await);
-                    stats.inc("cases");
-                    format!("case {}", id)
-                }
-                None => "bad-op".into(),
-            },
-            _ if case.is_none() => "bad-op".into(),
+/// one op line of a case
+async fn step(
+    c: &mut Case,
+    keys: &Keys,
+    sigsvc: &SignatureVerificationService,
+    stats: &mut Stats,
+    kind: &str,
+    kv: &HashMap<String, String>,
+) -> String {
+    let kv = kv.clone();
+    let kind = kind.to_string();
+    match kind.as_str() {
             "room" => {
-                let c = case.as_mut().unwrap();
                 match (get_u(&kv, "id"), get_i(&kv, "t"), get_u(&kv, "by")) {
                     (Some(id), Some(t), Some(by)) if !c.defs.contains_key(&id) && by < mk::NKEYS => {
                         let d = RoomDef {
-                            row: Some(RowDef { id, ent: 100, t, by, json: Some("{\"32\":\"r\"}".into()) }),
+                            row: Some(RowDef { id, ent: 100, c: t, t, by, json: Some("{\"32\":\"n0\"}".into()), tag: 0, sig: true }),
                             ..Default::default()
                         };
                         c.defs.insert(id, d);
@@ -684,7 +728,6 @@ pub async fn run(ops: &str, out: &str, stats_path: Option<&str>, _mode: &str) {
                 }
             }
             "radmin" => {
-                let c = case.as_mut().unwrap();
                 match (
                     get_u(&kv, "room"),
                     get_u(&kv, "id"),
@@ -697,30 +740,28 @@ pub async fn run(ops: &str, out: &str, stats_path: Option<&str>, _mode: &str) {
                         if c.defs.contains_key(&room) && by < mk::NKEYS && k < mk::NKEYS =>
                     {
                         let d = c.defs.get_mut(&room).unwrap();
-                        d.admins.push(RowDef { id, ent: 102, t, by, json: mk::user_json(&keys, k, en) });
-                        d.aedges.push(EdgeDef { src: room, se: 100, label: 32, dst: id, t, by });
+                        d.admins.push(RowDef { id, ent: 102, c: t, t, by, json: mk::user_json(keys, k, en), tag: 1_000_000 + 2 * k + en as u64, sig: true });
+                        d.aedges.push(EdgeDef { src: room, se: 100, label: 32, dst: id, t, by, sig: true });
                         "q".into()
                     }
                     _ => "bad-op".into(),
                 }
             }
             "rauth" => {
-                let c = case.as_mut().unwrap();
                 match (get_u(&kv, "room"), get_u(&kv, "id"), get_i(&kv, "t"), get_u(&kv, "by")) {
                     (Some(room), Some(id), Some(t), Some(by)) if c.defs.contains_key(&room) && by < mk::NKEYS => {
                         let d = c.defs.get_mut(&room).unwrap();
                         d.auths.push(AuthDef {
-                            row: Some(RowDef { id, ent: 101, t, by, json: Some("{\"32\":\"g!\"}".into()) }),
+                            row: Some(RowDef { id, ent: 101, c: t, t, by, json: Some("{\"32\":\"n1\"}".into()), tag: 1, sig: true }),
                             ..Default::default()
                         });
-                        d.authedges.push(EdgeDef { src: room, se: 100, label: 33, dst: id, t, by });
+                        d.authedges.push(EdgeDef { src: room, se: 100, label: 33, dst: id, t, by, sig: true });
                         "q".into()
                     }
                     _ => "bad-op".into(),
                 }
             }
             "rright" | "ruser" | "ruadmin" => {
-                let c = case.as_mut().unwrap();
                 let (room, g, id, t, by) = (
                     get_u(&kv, "room"),
                     get_u(&kv, "g"),
@@ -730,17 +771,19 @@ pub async fn run(ops: &str, out: &str, stats_path: Option<&str>, _mode: &str) {
                 );
                 let json = if kind == "rright" {
                     match (get_u(&kv, "e"), get_b(&kv, "ms"), get_b(&kv, "ma")) {
-                        (Some(e), Some(ms), Some(ma)) => mk::right_json(e, ms, ma),
+                        (Some(e), Some(ms), Some(ma)) => {
+                            mk::right_json(e, ms, ma).map(|j| (j, 2_000_000 + 4 * e + 2 * ms as u64 + ma as u64))
+                        }
                         _ => None,
                     }
                 } else {
                     match (get_u(&kv, "k"), get_b(&kv, "en")) {
-                        (Some(k), Some(en)) => mk::user_json(&keys, k, en),
+                        (Some(k), Some(en)) => mk::user_json(keys, k, en).map(|j| (j, 1_000_000 + 2 * k + en as u64)),
                         _ => None,
                     }
                 };
                 match (room, g, id, t, by, json) {
-                    (Some(room), Some(g), Some(id), Some(t), Some(by), Some(json)) if by < mk::NKEYS => {
+                    (Some(room), Some(g), Some(id), Some(t), Some(by), Some((json, tag))) if by < mk::NKEYS => {
                         let auth = c
                             .defs
                             .get_mut(&room)
@@ -749,16 +792,16 @@ pub async fn run(ops: &str, out: &str, stats_path: Option<&str>, _mode: &str) {
                             Some(a) => {
                                 match kind.as_str() {
                                     "rright" => {
-                                        a.rights.push(RowDef { id, ent: 103, t, by, json: Some(json) });
-                                        a.redges.push(EdgeDef { src: g, se: 101, label: 33, dst: id, t, by });
+                                        a.rights.push(RowDef { id, ent: 103, c: t, t, by, json: Some(json), tag, sig: true });
+                                        a.redges.push(EdgeDef { src: g, se: 101, label: 33, dst: id, t, by, sig: true });
                                     }
                                     "ruser" => {
-                                        a.users.push(RowDef { id, ent: 102, t, by, json: Some(json) });
-                                        a.uedges.push(EdgeDef { src: g, se: 101, label: 34, dst: id, t, by });
+                                        a.users.push(RowDef { id, ent: 102, c: t, t, by, json: Some(json), tag, sig: true });
+                                        a.uedges.push(EdgeDef { src: g, se: 101, label: 34, dst: id, t, by, sig: true });
                                     }
                                     _ => {
-                                        a.uadmins.push(RowDef { id, ent: 102, t, by, json: Some(json) });
-                                        a.uaedges.push(EdgeDef { src: g, se: 101, label: 35, dst: id, t, by });
+                                        a.uadmins.push(RowDef { id, ent: 102, c: t, t, by, json: Some(json), tag, sig: true });
+                                        a.uaedges.push(EdgeDef { src: g, se: 101, label: 35, dst: id, t, by, sig: true });
                                     }
                                 }
                                 "q".into()
@@ -769,11 +812,158 @@ pub async fn run(ops: &str, out: &str, stats_path: Option<&str>, _mode: &str) {
                     _ => "bad-op".into(),
                 }
             }
+            "srow" => {
+                let r = (|| {
+                    let id = get_u(&kv, "id")?;
+                    let ent = get_u(&kv, "ent")?;
+                    let c = get_i(&kv, "c")?;
+                    let m = get_i(&kv, "m")?;
+                    let by = get_u(&kv, "by")?;
+                    if by >= mk::NKEYS || !((1..=3).contains(&ent) || (100..=103).contains(&ent)) {
+                        return None;
+                    }
+                    let (json, tag) = match kv.get("body")?.as_str() {
+                        "user" => {
+                            let (k, en) = (get_u(&kv, "k")?, get_b(&kv, "en")?);
+                            (Some(mk::user_json(keys, k, en)?), 1_000_000 + 2 * k + en as u64)
+                        }
+                        "right" => {
+                            let (e, ms, ma) = (get_u(&kv, "e")?, get_b(&kv, "ms")?, get_b(&kv, "ma")?);
+                            (Some(mk::right_json(e, ms, ma)?), 2_000_000 + 4 * e + 2 * ms as u64 + ma as u64)
+                        }
+                        "name" => {
+                            let v = get_u(&kv, "v")?;
+                            if v >= 1000 {
+                                return None;
+                            }
+                            (Some(format!("{{\"32\":\"n{}\"}}", v)), v)
+                        }
+                        "none" => (None, 1000),
+                        _ => return None,
+                    };
+                    let sig = get_b(&kv, "sig").unwrap_or(true);
+                    Some(RowDef { id, ent, c, t: m, by, json, tag, sig })
+                })();
+                match r {
+                    Some(r) => {
+                        c.row_pool.insert(r.id, r);
+                        "q".into()
+                    }
+                    None => "bad-op".into(),
+                }
+            }
+            "sedge" => {
+                let e = (|| {
+                    let n = get_u(&kv, "n")?;
+                    let se = get_u(&kv, "se")?;
+                    let by = get_u(&kv, "by")?;
+                    let label = get_u(&kv, "l")?;
+                    if by >= mk::NKEYS || label == 0 || !((1..=3).contains(&se) || (100..=103).contains(&se)) {
+                        return None;
+                    }
+                    Some((
+                        n,
+                        EdgeDef {
+                            src: get_u(&kv, "src")?,
+                            se,
+                            label,
+                            dst: get_u(&kv, "dst")?,
+                            t: get_i(&kv, "c")?,
+                            by,
+                            sig: get_b(&kv, "sig").unwrap_or(true),
+                        },
+                    ))
+                })();
+                match e {
+                    Some((n, e)) => {
+                        c.edge_pool.insert(n, e);
+                        "q".into()
+                    }
+                    None => "bad-op".into(),
+                }
+            }
+            "cand" => {
+                let d = (|| {
+                    let room = get_u(&kv, "room")?;
+                    let rows = |k: &str| -> Option<Vec<RowDef>> {
+                        list_u(&kv, k)?.iter().map(|i| c.row_pool.get(i).cloned()).collect()
+                    };
+                    let edges = |k: &str| -> Option<Vec<EdgeDef>> {
+                        list_u(&kv, k)?.iter().map(|i| c.edge_pool.get(i).cloned()).collect()
+                    };
+                    Some((
+                        room,
+                        RoomDef {
+                            row: Some(c.row_pool.get(&room)?.clone()),
+                            admins: rows("admins")?,
+                            aedges: edges("aedges")?,
+                            auths: rows("auths")?
+                                .into_iter()
+                                .map(|r| AuthDef { row: Some(r), ..Default::default() })
+                                .collect(),
+                            authedges: edges("authedges")?,
+                        },
+                    ))
+                })();
+                match d {
+                    Some((room, d)) => {
+                        c.defs.insert(room, d);
+                        "q".into()
+                    }
+                    None => "bad-op".into(),
+                }
+            }
+            "cauth" => {
+                let d = (|| {
+                    let room = get_u(&kv, "room")?;
+                    let id = get_u(&kv, "id")?;
+                    let rows = |k: &str| -> Option<Vec<RowDef>> {
+                        list_u(&kv, k)?.iter().map(|i| c.row_pool.get(i).cloned()).collect()
+                    };
+                    let edges = |k: &str| -> Option<Vec<EdgeDef>> {
+                        list_u(&kv, k)?.iter().map(|i| c.edge_pool.get(i).cloned()).collect()
+                    };
+                    Some((room, id, rows("rights")?, edges("redges")?, rows("users")?, edges("uedges")?, rows("uadmins")?, edges("uaedges")?))
+                })();
+                match d {
+                    Some((room, id, rights, redges, users, uedges, uadmins, uaedges)) => {
+                        // every group of the candidate with that id (as the model's `updAuth`)
+                        let mut found = false;
+                        if let Some(def) = c.defs.get_mut(&room) {
+                            for a in def.auths.iter_mut().filter(|a| a.row.as_ref().map(|r| r.id) == Some(id)) {
+                                found = true;
+                                a.rights = rights.clone();
+                                a.redges = redges.clone();
+                                a.users = users.clone();
+                                a.uedges = uedges.clone();
+                                a.uadmins = uadmins.clone();
+                                a.uaedges = uaedges.clone();
+                            }
+                        }
+                        if found { "q".into() } else { "bad-op".into() }
+                    }
+                    None => "bad-op".into(),
+                }
+            }
+            "dump" => format!("dump {}", c.dump(keys).await),
+            "probe" => match (get_u(&kv, "room"), kv.get("dates")) {
+                (Some(room), Some(ds)) => {
+                    let dates: Option<Vec<i64>> = if ds.is_empty() {
+                        Some(vec![])
+                    } else {
+                        ds.split(',').map(|x| x.parse::<i64>().ok()).collect()
+                    };
+                    match dates {
+                        Some(dates) => c.probe(keys, room, &dates).await,
+                        None => "bad-op".into(),
+                    }
+                }
+                _ => "bad-op".into(),
+            },
             "install" => {
-                let c = case.as_mut().unwrap();
                 match get_u(&kv, "room") {
                     Some(room) => {
-                        let r = c.install(&keys, &sigsvc, room).await;
+                        let r = c.install(keys, sigsvc, room).await;
                         stats.inc(&format!("install.{}", r));
                         r
                     }
@@ -781,8 +971,7 @@ pub async fn run(ops: &str, out: &str, stats_path: Option<&str>, _mode: &str) {
                 }
             }
             "node" => {
-                let c = case.as_mut().unwrap();
-                match node_of_op(&keys, &kv) {
+                match node_of_op(keys, &kv) {
                     Some((n, ad, asg, rank, tag, json)) => {
                         if Some(rank) != get_u(&kv, "sg") {
                             "bad-op".into()
@@ -799,10 +988,9 @@ pub async fn run(ops: &str, out: &str, stats_path: Option<&str>, _mode: &str) {
                 }
             }
             "edge" => {
-                let c = case.as_mut().unwrap();
                 let e = (|| {
                     mk::edge(
-                        &keys,
+                        keys,
                         &EdgeSpec {
                             src: get_u(&kv, "src")?,
                             se: get_u(&kv, "se")?,
@@ -823,10 +1011,9 @@ pub async fn run(ops: &str, out: &str, stats_path: Option<&str>, _mode: &str) {
                 }
             }
             "ndel" => {
-                let c = case.as_mut().unwrap();
                 let d = (|| {
                     mk::node_del(
-                        &keys,
+                        keys,
                         get_u(&kv, "r")?,
                         get_u(&kv, "id")?,
                         get_u(&kv, "e")?,
@@ -845,10 +1032,9 @@ pub async fn run(ops: &str, out: &str, stats_path: Option<&str>, _mode: &str) {
                 }
             }
             "edel" => {
-                let c = case.as_mut().unwrap();
                 let d = (|| {
                     mk::edge_del(
-                        &keys,
+                        keys,
                         get_u(&kv, "r")?,
                         get_u(&kv, "src")?,
                         get_u(&kv, "se")?,
@@ -869,10 +1055,9 @@ pub async fn run(ops: &str, out: &str, stats_path: Option<&str>, _mode: &str) {
                 }
             }
             "sync" => {
-                let c = case.as_mut().unwrap();
                 match get_u(&kv, "r") {
                     Some(r) => {
-                        let o = c.sync(&keys, &sigsvc, r, &mut stats).await;
+                        let o = c.sync(keys, sigsvc, r, stats).await;
                         let cls = o.split_whitespace().nth(1).unwrap_or("bad-op").to_string();
                         stats.inc(&format!("sync.{}", cls.split(':').next().unwrap_or("")));
                         o
@@ -881,13 +1066,95 @@ pub async fn run(ops: &str, out: &str, stats_path: Option<&str>, _mode: &str) {
                 }
             }
             _ => "bad-op".into(),
+    }
+}
+
+/// all the lines of one case on a fresh instance
+async fn run_case(
+    n: u64,
+    lines: Vec<String>,
+    keys: std::sync::Arc<Keys>,
+    sigsvc: SignatureVerificationService,
+    work: PathBuf,
+) -> (Vec<String>, Stats) {
+    let mut stats = Stats::default();
+    let mut out = vec![];
+    let mut case: Option<Case> = None;
+    for line in lines {
+        let (kind, kv) = parse_kv(&line);
+        let res = if kind == "case" {
+            match get_u(&kv, "id") {
+                Some(id) => {
+                    case = Some(Case::new(&work, n).await);
+                    stats.inc("cases");
+                    format!("case {}", id)
+                }
+                None => "bad-op".into(),
+            }
+        } else {
+            match case.as_mut() {
+                Some(c) => step(c, &keys, &sigsvc, &mut stats, &kind, &kv).await,
+                None => "bad-op".into(),
+            }
         };
-        writeln!(w, "{}", res).unwrap();
+        out.push(res);
     }
     if let Some(c) = case.take() {
         let dir = c.dir.clone();
         drop(c);
         let _ = std::fs::remove_dir_all(dir);
+    }
+    (out, stats)
+}
+
+pub async fn run(ops: &str, out: &str, stats_path: Option<&str>, _mode: &str) {
+    let f = std::fs::File::open(ops).expect("ops file");
+    let mut w = BufWriter::new(std::fs::File::create(out).expect("out file"));
+    let work: PathBuf = PathBuf::from(format!("{}.db", out));
+    let _ = std::fs::remove_dir_all(&work);
+    std::fs::create_dir_all(&work).unwrap();
+    let keys = std::sync::Arc::new(Keys::new());
+    let sigsvc = SignatureVerificationService::start(2);
+    // cases are independent (fresh instance, own directory): a few run concurrently, output in file order
+    let mut cases: Vec<Vec<String>> = vec![];
+    for line in std::io::BufReader::new(f).lines() {
+        let line = line.unwrap();
+        if line.starts_with("case ") || cases.is_empty() {
+            cases.push(vec![]);
+        }
+        cases.last_mut().unwrap().push(line);
+    }
+    let par: usize = std::env::var("DV_PAR").ok().and_then(|v| v.parse().ok()).unwrap_or(4);
+    let sem = std::sync::Arc::new(tokio::sync::Semaphore::new(par.max(1)));
+    let mut handles = vec![];
+    for (i, lines) in cases.into_iter().enumerate() {
+        let (keys, sigsvc, work, sem) = (keys.clone(), sigsvc.clone(), work.clone(), sem.clone());
+        let nlines = lines.len();
+        let h = tokio::spawn(async move {
+            let _permit = sem.acquire_owned().await.unwrap();
+            run_case(i as u64, lines, keys, sigsvc, work).await
+        });
+        handles.push((h, nlines));
+    }
+    let mut stats = Stats::default();
+    for (h, nlines) in handles {
+        match h.await {
+            Ok((lines, st)) => {
+                for l in lines {
+                    writeln!(w, "{}", l).unwrap();
+                }
+                for (k, v) in st.counters {
+                    stats.add(&k, v);
+                }
+            }
+            Err(_) => {
+                // a panic inside the code under test: every line of the case reports it
+                stats.inc("panics");
+                for _ in 0..nlines {
+                    writeln!(w, "panic").unwrap();
+                }
+            }
+        }
     }
     let _ = std::fs::remove_dir_all(&work);
     w.flush().unwrap();
